@@ -24,7 +24,7 @@ RULE = (
     "case = (base video format, group of symbolic parameters, picture coding mode, k-th alternative header of iter_sequence_headers); "
     "the header is serialised by the real Serialiser onto a symbolic file and parsed by the real decoder's sequence_header under "
     "the configured level; z3 proves every returned video parameter and the picture coding mode equal to the request; "
-    "real levels: all (level, base format, profile) combinations the encoder accepts, concrete"
+    "real levels: every level-table column x base format x {defaults, each allowed frame-rate preset, scan format, signal-range preset} the encoder accepts, concrete"
 )
 BOUNDS = {
     "quick": "23 base formats x 5 parameter groups (frame size+clean area, frame rate, pixel aspect ratio, luma range, colour-difference range) x 1 coding mode (alternating), first 2 alternative headers, symbolic values of 8 bits (frame size 1..255 etc.); real levels: first alternative",
@@ -184,8 +184,8 @@ def build(task):
 
     def hl(ctx):
         i = ctx.concretize(ctx.sym_int("case", 0, len(cases) - 1))
-        level, base, profile, pcm = cases[i]
-        cf = _codec_features(base, pcm, {}, level=level, profile=profile)
+        level, base, profile, pcm, o = cases[i]
+        cf = _codec_features(base, pcm, dict(o), level=level, profile=profile)
 
         def mk(f=None):
             return SymFile(f.getcells()) if f is not None else SymFile()
@@ -230,25 +230,59 @@ _LC = None
 
 
 def _level_cases():
-    """(level, base format, profile, coding mode) for which the encoder yields at least one header."""
+    """(level, base format, profile, coding mode, overrides) for which the encoder yields at least one header: every real
+    level-table column x base format it names x {format defaults, each frame-rate preset, each scan format, each
+    signal-range preset} the column allows."""
     global _LC
     if _LC is None:
+        import vc2_data_tables as T
         from vc2_conformance.encoder.sequence_header import iter_sequence_headers
-        from vc2_data_tables import Levels
+        from vc2_conformance.level_constraints import LEVEL_CONSTRAINTS
+        from vc2_conformance.constraint_table import AnyValue
 
+        def values(col, key):
+            v = col.get(key)
+            if v is None or isinstance(v, AnyValue):
+                return []
+            try:
+                return sorted(x for x in v.iter_values() if not isinstance(x, bool))
+            except Exception:
+                return []
+
+        cand = []
+        for col in LEVEL_CONSTRAINTS:
+            for level in values(col, "level"):
+                if level == 0:
+                    continue
+                for base in values(col, "base_video_format"):
+                    overs = [()]
+                    for idx in values(col, "frame_rate_index"):
+                        if idx != 0 and idx in [int(x) for x in T.PresetFrameRates]:
+                            fr = T.PRESET_FRAME_RATES[T.PresetFrameRates(idx)]
+                            overs.append((("frame_rate_numer", fr.numerator), ("frame_rate_denom", fr.denominator)))
+                    for ss in values(col, "source_sampling"):
+                        overs.append((("source_sampling", T.SourceSamplingModes(ss)),))
+                    for idx in values(col, "custom_signal_range_index"):
+                        if idx != 0 and idx in [int(x) for x in T.PresetSignalRanges]:
+                            sr = T.PRESET_SIGNAL_RANGES[T.PresetSignalRanges(idx)]
+                            overs.append((("luma_offset", sr.luma_offset), ("luma_excursion", sr.luma_excursion), ("color_diff_offset", sr.color_diff_offset), ("color_diff_excursion", sr.color_diff_excursion)))
+                    for profile in values(col, "profile") or [0, 3]:
+                        for pcm in values(col, "picture_coding_mode") or [0, 1]:
+                            for o in overs:
+                                cand.append((level, base, profile, pcm, o))
         out = []
-        for level in [int(l) for l in Levels]:
-            if level == 0:
+        seen = set()
+        for c in cand:
+            if c in seen:
                 continue
-            for base in _base_formats():
-                for profile in (0, 3):
-                    for pcm in (0, 1):
-                        try:
-                            cf = _codec_features(base, pcm, {}, level=level, profile=profile)
-                            if next(iter_sequence_headers(cf), None) is not None:
-                                out.append((level, base, profile, pcm))
-                        except Exception:
-                            pass
+            seen.add(c)
+            level, base, profile, pcm, o = c
+            try:
+                cf = _codec_features(base, pcm, dict(o), level=level, profile=profile)
+                if _regular(cf) and next(iter_sequence_headers(cf), None) is not None:
+                    out.append(c)
+            except Exception:
+                pass
         _LC = out
     return _LC
 
@@ -287,10 +321,10 @@ def replay(task, label, inputs, extra):
         if not _regular(cf):
             return {"reproduced": False, "key": None, "detail": "irregular format"}
     else:
-        level, base, profile, pcm = _level_cases()[inputs.get("case", 0)]
+        level, base, profile, pcm, o = _level_cases()[inputs.get("case", 0)]
         nalt = task["args"][0]
-        cf = _codec_features(base, pcm, {}, level=level, profile=profile)
-        over = {"level": level, "profile": profile}
+        cf = _codec_features(base, pcm, dict(o), level=level, profile=profile)
+        over = dict(o, level=level, profile=profile)
     n = _check(cf, nalt, mk, prove, lambda a, b, l: prove(a == b, l, [a, b]), lambda l, e: bad.append((l, e)))
     return {"reproduced": bool(bad), "key": "C15:%s" % (bad[0][0].split(" alternative")[0] if bad else None),
             "detail": "base format %d coding mode %d parameters %r: %r" % (base, pcm, over, bad[:2])}
